@@ -87,7 +87,15 @@ theorem strong_step {c c' : Cfg} {p : PState} {t : Tid} {ch : Choice} {e : Optio
   · rename_i s l ev hts
     cases h
     have hsmu := tstep_smu hts hst.swf (hst.sf t).w (hst.sf t).r
-    refine ⟨hs', hsmu.1, ?_, ?_⟩
+    have hconv := tstep_smu_conv hts hst.rnd (hst.conv t).1 (hst.conv t).2
+    refine ⟨hs', hsmu.1, ?_, ?_, hconv.1, ?_⟩
+    rotate_left 2
+    · intro u
+      rw [loc_set]
+      by_cases hu : u = t
+      · subst hu; simpa using ⟨hconv.2.1, hconv.2.2.1⟩
+      · simp only [hu, if_false]
+        exact ⟨fun x => (hst.conv u).1 ((hconv.2.2.2 u hu).1 x), fun x => (hst.conv u).2 ((hconv.2.2.2 u hu).2 x)⟩
     · intro u
       rw [loc_set]
       by_cases hu : u = t
